@@ -41,3 +41,12 @@ Theorem C16_lin_ok_implies : forall n r l,
   l = LLin /\ confirmed_and_caught_up (n_lin n).
 Proof. exact lin_ok_implies. Qed.
 Print Assumptions C16_lin_ok_implies.
+
+(* Second tie (DESIGN 3.5, docs/gotrans.md): IsStaleRead as translated from store/state.go on this
+   run is the hand model is_stale (obs_of = the durations / IsZero the Go function derives). *)
+From RQ Require Import Gen.StoreState Proofs.C16_Gen.
+Theorem C16_source_derived_eq : forall (now llc lfu lat : Z) (fsm commit : N) (fresh : Z) (strict : bool),
+  IsStaleRead now llc lfu lat (Z.of_N fsm) (Z.of_N commit) fresh strict
+  = is_stale (obs_of now llc lfu lat fsm commit) fresh strict.
+Proof. exact gen_IsStaleRead_eq. Qed.
+Print Assumptions C16_source_derived_eq.
